@@ -29,7 +29,7 @@ G_HEADS = {"End", "Empty", "Any", "Just", "OneOf", "NoneOf", "Select", "Custom",
            "DelimitedBy", "PaddedBy", "Group", "Or", "Choice", "ChoiceVec", "OrNot", "Not", "AndIs", "Rewind",
            "RepUnit", "Collect", "CollectExactly", "Foldl", "Foldr", "FoldlWith", "FoldrWith", "RecoverVia",
            "RecoverSkipUntil", "RecoverSkipRetry", "Labelled", "MapErr", "WithCtx", "IgnoreWithCtx", "ThenWithCtx",
-           "MapCtx", "JustCfg", "Memo", "Rec", "Var", "NestedIn", "Boxed", "GroupArr", "Pratt", "RecDecl", "ExtWrap", "Skip", "NestedDelims", "WithState", "Lazy", "Padded", "AnyRef", "SelectRef", "Prog"}
+           "MapCtx", "JustCfg", "Memo", "Rec", "Var", "NestedIn", "NestedVia", "Boxed", "GroupArr", "Pratt", "RecDecl", "ExtWrap", "Skip", "NestedDelims", "WithState", "Lazy", "Padded", "AnyRef", "SelectRef", "Prog"}
 IT_HEADS = {"IRep", "ISep", "IEnum", "IMap", "IMapWith", "IOrNot", "IRepCfg", "IIntoIter", "IThen"}
 LIST_G = {"Group", "GroupArr", "Choice", "ChoiceVec"}
 
